@@ -51,6 +51,9 @@ func runReplay(repo, hdir string, rf ReplayFile) (bool, string) {
 		return false, err.Error()
 	}
 	defer os.RemoveAll(tmp)
+	for _, rt := range rf.Fallbacks {
+		useFallbacks[rt] = true
+	}
 	ov, _, err := buildOverlay(repo, hdir, rf.Sets, "native")
 	if err != nil {
 		return false, err.Error()
